@@ -86,6 +86,16 @@ fn prepared(cfg: &IoCfg) -> Emu {
     c.ay = !cfg.ay_off;
     c.sound = true;
     let mut e = emu(&c);
+    {
+        // the machine has been through a snapshot load (an SZX with nothing but an SPCR chunk: border 0, latch 0):
+        // what decodes where must not depend on that
+        let mut f = b"ZXST".to_vec();
+        f.extend_from_slice(&[1, 4, if cfg.m128 { 2 } else { 1 }, 0]);
+        f.extend_from_slice(b"SPCR");
+        f.extend_from_slice(&8u32.to_le_bytes());
+        f.extend_from_slice(&[0, 0, 0, 0, 0, 0, 0, 0]);
+        let _ = e.load_snapshot(rustzx_core::host::Snapshot::Szx(VAsset::new(f)));
+    }
     if cfg.has_ext() {
         e.set_io_extender(Ext {
             mask: cfg.ext_mask,
